@@ -13,6 +13,7 @@ import (
 	"github.com/rulego/streamsql"
 	"github.com/rulego/streamsql/functions"
 	"github.com/rulego/streamsql/logger"
+	"github.com/rulego/streamsql/types"
 	"pgregory.net/rapid"
 	"verifharness/internal/et"
 	"verifharness/internal/pbt"
@@ -24,6 +25,11 @@ type SinkSpec struct {
 	Sync    bool   `json:"sync"`
 	Every   int    `json:"every"`    // act on every k-th call
 	DelayUs int    `json:"delay_us"` // slow sink
+}
+
+// SmallBuf: buffer and pool sizes of a custom performance configuration.
+type SmallBuf struct {
+	Data, Result, WinOut, SinkPool, SinkWorkers int
 }
 
 type Case struct {
@@ -43,6 +49,7 @@ type Case struct {
 	PaceUs      int        `json:"pace_us"`             // producer pause every 16 rows
 	Sentinel    bool       `json:"sentinel"`            // direct kinds: after the producers, a sentinel row must still be delivered before Stop
 	HookSeed    uint64     `json:"hook_seed,omitempty"` // seed of the engine's build-tag-guarded perturbation points (0 = off)
+	Small       *SmallBuf  `json:"small,omitempty"`     // nil = default buffer sizes; otherwise a custom performance configuration with small buffers (every stage fills up)
 	Where       int        `json:"where,omitempty"`     // shape of the (always true) WHERE predicate: 0 shortcut comparison, 1-3 forms the general evaluator has to run
 }
 
@@ -106,6 +113,15 @@ func genCase(t *rapid.T) Case {
 	c.Sentinel = (c.Kind == "direct" || c.Kind == "analytic") && rapid.Bool().Draw(t, "sentinel")
 	c.HookSeed = hookSeed(t)
 	c.Where = rapid.IntRange(0, 3).Draw(t, "where")
+	if rapid.IntRange(0, 2).Draw(t, "smallbuf") == 0 {
+		c.Small = &SmallBuf{
+			Data:        rapid.SampledFrom([]int{4, 32, 1000}).Draw(t, "sbdata"),
+			Result:      rapid.SampledFrom([]int{2, 16, 100}).Draw(t, "sbresult"),
+			WinOut:      rapid.SampledFrom([]int{2, 4, 16}).Draw(t, "sbwin"),
+			SinkPool:    rapid.SampledFrom([]int{1, 4}).Draw(t, "sbpool"),
+			SinkWorkers: rapid.SampledFrom([]int{1, 2}).Draw(t, "sbworkers"),
+		}
+	}
 	return c
 }
 
@@ -207,6 +223,22 @@ func runCase(c Case) (res pbt.Result) {
 	time.Sleep(0)
 	base, _ := run.EngineGoroutines()
 	opt := []streamsql.Option{streamsql.WithOverflowStrategy(c.Strategy, 0), streamsql.WithLogger(logger.NewDiscardLogger())}
+	if c.Small != nil {
+		pc := types.DefaultPerformanceConfig()
+		pc.OverflowConfig.Strategy = c.Strategy
+		pc.OverflowConfig.BlockTimeout = 0
+		pc.OverflowConfig.AllowDataLoss = c.Strategy == "drop"
+		pc.BufferConfig.DataChannelSize = c.Small.Data
+		pc.BufferConfig.ResultChannelSize = c.Small.Result
+		pc.BufferConfig.WindowOutputSize = c.Small.WinOut
+		pc.WorkerConfig.SinkPoolSize = c.Small.SinkPool
+		pc.WorkerConfig.SinkWorkerCount = c.Small.SinkWorkers
+		if c.Strategy == "expand" {
+			pc.OverflowConfig.ExpansionConfig.MinIncrement = 8
+		}
+		opt = []streamsql.Option{streamsql.WithCustomPerformance(pc), streamsql.WithLogger(logger.NewDiscardLogger())}
+		res.Class("small-buffers")
+	}
 	s := streamsql.New(opt...)
 	if err := s.Execute(sqlOf(c)); err != nil {
 		res.Add(pbt.D("execute-error", "%v for %s", err, sqlOf(c)))
@@ -528,7 +560,7 @@ func features(c Case) []string {
 
 var spec = pbt.Spec[Case]{
 	ID:          "C18",
-	Rule:        "generated: query kind in {direct, analytic, CEP, tumbling/sliding/session in event and processing time, counting, global} x strategy {drop, block, expand}; 1-4 producers, 0-2 EmitSync callers, AddSink adders, GetStats readers, TriggerWindow callers, 1-2 Stop callers at a drawn offset; sinks plain / slow / panicking every k-th call / re-entrant (GetStats, Emit, AddSink, Stop), sync or async; rows that make a registered custom function panic; built with -race (GORACE=halt_on_error). oracle: no panic escapes an API call, no data race, Stop returns (within grace + slack), afterwards the sink-call counter stays constant, Emit/EmitSync after Stop do not panic, a second Stop returns at once, every API caller returns, the census of goroutines with engine frames returns to its pre-New value, and with the block strategy a sentinel row emitted after panicking sinks/rows is still delivered. non-trivial = Stop overlapped an in-flight producer and at least one sink call happened; distinct by case hash",
+	Rule:        "generated: query kind in {direct, analytic, CEP, tumbling/sliding/session in event and processing time, counting, global} x strategy {drop, block, expand} x buffer sizes {defaults, or a custom configuration with input buffer 4-1000, result buffer 2-100, window output buffer 2-16, sink pool 1-4 x 1-2 workers}; 1-4 producers, 0-2 EmitSync callers, AddSink adders, GetStats readers, TriggerWindow callers, 1-2 Stop callers at a drawn offset; sinks plain / slow / panicking every k-th call / re-entrant (GetStats, Emit, AddSink, Stop), sync or async; rows that make a registered custom function panic; built with -race (GORACE=halt_on_error). oracle: no panic escapes an API call, no data race, Stop returns (within grace + slack), afterwards the sink-call counter stays constant, Emit/EmitSync after Stop do not panic, a second Stop returns at once, every API caller returns, the census of goroutines with engine frames returns to its pre-New value, and with the block strategy a sentinel row emitted after panicking sinks/rows is still delivered. non-trivial = Stop overlapped an in-flight producer and at least one sink call happened; distinct by case hash",
 	Assumptions: []string{"a wait that expires without engine frames in the goroutine dump is inconclusive, not a violation", "re-entrant Emit only under non-blocking strategies; re-entrant Stop is issued from a goroutine started by the sink"},
 	Gen:         genCase,
 	Run:         runCase,
